@@ -35,7 +35,7 @@ func isReservedHeader(k string) bool {
 	switch k {
 	case "content-type", "user-agent", "grpc-message-type", "grpc-encoding",
 		"grpc-message", "grpc-status", "grpc-timeout",
-		"grpc-status-details", "te":
+		"grpc-status-details-bin", "te":
 		return true
 	default:
 		return false
@@ -60,7 +60,7 @@ func decodeBinHeader(v string) (s string, err error) {
 	var b []byte
 	if len(v)%4 == 0 {
 		// Input was padded, or padding was not necessary.
-		b, err = base64.RawStdEncoding.DecodeString(v)
+		b, err = base64.StdEncoding.DecodeString(v)
 	} else {
 		b, err = base64.RawStdEncoding.DecodeString(v)
 	}
